@@ -239,7 +239,7 @@ func Gen(r *hc.RNG, o GenOptions) (Scenario, map[int]bool) {
 					touch(x)
 				}
 			}
-			s.Actions = append(s.Actions, Action{Op: "T"})
+			s.Actions = append(s.Actions, Action{Op: hc.Pick(r, "T", "T", "PC")})
 		}
 		if len(chans) > 0 && r.Chance(8) {
 			c := hc.Pick(r, chans...)
